@@ -92,6 +92,17 @@ Proof.
     destruct (IH q1 v) as [IH1 IH2]. rewrite IH1, IH2. split; [now rewrite app_assoc|reflexivity].
 Qed.
 
+Lemma tr_live_snoc (M : transducer T) : forall c q v,
+  tr_live M q (c ++ [v]) = tr_live M q c && negb (t_fin M (tr_state M q c)).
+Proof.
+  induction c as [|x c IH]; intros q v; cbn [app tr_live tr_state].
+  - now rewrite andb_true_r.
+  - destruct (t_fin M q) eqn:F; cbn [negb andb]; [reflexivity|]. apply IH.
+Qed.
+
+Lemma tr_live_nofin (M : transducer T) : (forall q, t_fin M q = false) -> forall c q, tr_live M q c = true.
+Proof. intros H. induction c as [|x c IH]; intros q; cbn [tr_live]; [reflexivity|]. now rewrite H, IH. Qed.
+
 (* the list function of each combinator *)
 Lemma fn_taskn n : forall (xs : list T) q, tr_run (tr_of (KTaskN n)) q xs = firstn (n - q) xs.
 Proof.
@@ -293,6 +304,18 @@ Proof.
     eapply step_inv; [apply IH; reflexivity|exact H].
 Qed.
 
+(* only a stage whose loop has not ended receives *)
+Lemma stage_live : forall tr s, run (step Teqb M) (stage_init M nil_in) tr = Some s -> tr_live M 0 (ins_of 0 tr) = true.
+Proof.
+  induction tr as [|l tr IH] using rev_ind; intros s H; [reflexivity|].
+  rewrite run_snoc in H. destruct (run (step Teqb M) (stage_init M nil_in) tr) as [s1|] eqn:R; [|discriminate].
+  pose proof (IH _ eq_refl) as L. pose proof (stage_inv _ _ R) as I. rewrite ins_snoc.
+  destruct l as [i w|i|j w| |j|id|id|]; cbn [in_lab]; rewrite ?app_nil_r; try exact L.
+  destruct i; cbn [Nat.eqb]; [|now rewrite app_nil_r].
+  destruct s1 as [q|q v|q| | |]; cbn [step] in H; try discriminate.
+  cbn [SInv] in I. destruct I as (Hq & Hf & _). rewrite tr_live_snoc, L, <- Hq, Hf. reflexivity.
+Qed.
+
 End Inv.
 
 (* ---------- stage_safe: every trace satisfies the relation ---------- *)
@@ -300,8 +323,8 @@ Theorem stage_safe (M : transducer T) nil_in tr s :
   run (step Teqb M) (stage_init M nil_in) tr = Some s ->
   stage_rel M 0 (ins_of 0 tr) (outs_of 0 tr) (closed_of 0 tr) (has_ctx tr).
 Proof.
-  intros H. apply stage_inv in H. unfold stage_rel. exists (ins_of 0 tr).
-  split; [apply prefix_refl|]. split; [lia|]. unfold closed_of.
+  intros H. pose proof (stage_live _ _ _ _ H) as HL. apply stage_inv in H. unfold stage_rel. exists (ins_of 0 tr).
+  split; [apply prefix_refl|]. split; [lia|]. split; [exact HL|]. unfold closed_of.
   destruct s as [q|q v|q| | |]; cbn [SInv] in H.
   - destruct H as (_ & _ & Ho & Hc & _). rewrite Hc, Ho. split; [apply prefix_refl|discriminate].
   - destruct H as (_ & Ho & Hc & _). rewrite Hc, <- Ho. split; [apply prefix_app_l|discriminate].
@@ -418,20 +441,21 @@ Theorem stage_rel_b_ok (M : transducer T) incap ins outs closed cancelled :
 Proof.
   unfold stage_rel_b, stage_rel. rewrite existsb_exists. split.
   - intros (n & Hn & Hb). apply in_seq in Hn.
-    apply andb_true_iff in Hb as [Hb H3]. apply andb_true_iff in Hb as [H1 H2].
+    apply andb_true_iff in Hb as [Hb H3]. apply andb_true_iff in Hb as [H1 H2]. apply andb_true_iff in H1 as [H1 HL].
     apply Nat.leb_le in H1. apply prefix_b_ok in H2.
     assert (Hl : length (firstn n ins) = n) by (rewrite firstn_length; lia).
     exists (firstn n ins). split; [apply prefix_firstn; exists n; split; [lia|reflexivity]|].
-    split; [lia|]. split; [exact H2|].
+    split; [lia|]. split; [exact HL|]. split; [exact H2|].
     intros Hc Hx. subst closed cancelled. cbn [negb orb] in H3.
     apply andb_true_iff in H3 as [H3 H4]. apply leqb_ok in H3. split; [exact H3|].
     apply orb_true_iff in H4 as [H4|H4]; [left|now right].
     apply Nat.eqb_eq in H4. subst n. apply firstn_all.
-  - intros (c & Hp & Hl & Ho & Hc). apply prefix_firstn in Hp as (n & Hn & ->).
+  - intros (c & Hp & Hl & HL & Ho & Hc). apply prefix_firstn in Hp as (n & Hn & ->).
     assert (Hl' : length (firstn n ins) = n) by (rewrite firstn_length; lia).
     exists n. split; [apply in_seq; lia|].
-    rewrite Hl' in Hl. apply andb_true_iff. split; [apply andb_true_iff; split|].
+    rewrite Hl' in Hl. apply andb_true_iff. split; [apply andb_true_iff; split; [apply andb_true_iff; split|]|].
     + apply Nat.leb_le. lia.
+    + exact HL.
     + now apply prefix_b_ok.
     + destruct closed; [|reflexivity]. destruct cancelled; [reflexivity|]. cbn [negb orb].
       destruct (Hc eq_refl eq_refl) as [E D]. apply andb_true_iff. split; [now apply leqb_ok|].
@@ -445,11 +469,11 @@ Lemma stage_rel_buffer (M : transducer T) c ins cap outs closed cancelled :
   (closed = true -> cancelled = false -> c = ins \/ t_fin M (tr_state M 0 c) = true) ->
   stage_rel M cap ins outs closed cancelled.
 Proof.
-  intros (c' & Hp & Hl & Ho & Hc) Hpi Hli Hd.
+  intros (c' & Hp & Hl & HL & Ho & Hc) Hpi Hli Hd.
   assert (c' = c).
   { destruct Hp as [r E]. assert (length r = 0) by (rewrite E, app_length in Hl; lia).
     destruct r; [|discriminate]. now rewrite app_nil_r in E. }
-  subst c'. exists c. split; [exact Hpi|]. split; [exact Hli|]. split; [exact Ho|].
+  subst c'. exists c. split; [exact Hpi|]. split; [exact Hli|]. split; [exact HL|]. split; [exact Ho|].
   intros H1 H2. destruct (Hc H1 H2) as [E _]. split; [exact E|auto].
 Qed.
 
@@ -522,12 +546,16 @@ Theorem stream_safe tr s :
 Proof.
   intros H. apply stream_inv in H. unfold stage_rel, closed_of. exists (outs_of 0 tr).
   rewrite (fn_id KStreamId) by auto.
+  assert (HL : tr_live (tr_of KStreamId) 0 (outs_of 0 tr) = true) by (apply tr_live_nofin; reflexivity).
   destruct s as [rest| | |]; cbn [StInv] in H.
   - destruct H as (_ & Ho & Hc & _). rewrite Hc. split; [rewrite <- Ho; apply prefix_app_l|].
-    split; [lia|]. split; [apply prefix_refl|discriminate].
-  - destruct H as ([H1 _] & Hc). rewrite Hc. split; [exact H1|]. split; [lia|]. split; [apply prefix_refl|discriminate].
-  - destruct H as ([H1 H2] & _). split; [exact H1|]. split; [lia|]. split; [apply prefix_refl|]. intros _ Hx. auto.
-  - destruct H as ([H1 H2] & _). split; [exact H1|]. split; [lia|]. split; [apply prefix_refl|]. intros _ Hx. auto.
+    split; [lia|]. split; [exact HL|]. split; [apply prefix_refl|discriminate].
+  - destruct H as ([H1 _] & Hc). rewrite Hc. split; [exact H1|]. split; [lia|]. split; [exact HL|].
+    split; [apply prefix_refl|discriminate].
+  - destruct H as ([H1 H2] & _). split; [exact H1|]. split; [lia|]. split; [exact HL|].
+    split; [apply prefix_refl|]. intros _ Hx. auto.
+  - destruct H as ([H1 H2] & _). split; [exact H1|]. split; [lia|]. split; [exact HL|].
+    split; [apply prefix_refl|]. intros _ Hx. auto.
 Qed.
 
 Theorem stream_close tr :
